@@ -372,16 +372,13 @@ def apiReadFirstN (dir : Dir) (s : Sess) (n : Nat) (sb eb : Bound) : R (List Ent
     | .ok es => pure es
     | .error f => .error (wrapErr "Reading" f)
 
+/-- `n_lines_between`: the same seek; an empty file counts as zero lines -/
 def apiNLines (dir : Dir) (s : Sess) (sb eb : Bound) : R Nat :=
-  let region := mainRegion dir s
-  match roughPos s.d.view sb eb with
-  | .error (.err "EmptyFile") => .ok 0
-  | .error f => .error (wrapErr "InvalidRange" f)
-  | .ok r =>
-    match refine s.d.view region r with
-    | .error f => .error (wrapErr "Seeking" f)
-    | .ok (some pos) => .ok (pos.lines s.d.p)
-    | .ok none => .ok 0
+  match apiSeek (mainRegion dir s) s.d sb eb with
+  | .error (.err "InvalidRange/EmptyFile") => .ok 0
+  | .error f => .error f
+  | .ok (some pos) => .ok (pos.lines s.d.p)
+  | .ok none => .ok 0
 
 /-- level selection of `read_n`: index into `raw :: caches` -/
 def selectLevel (s : Sess) (n : Nat) (sb eb : Bound) : R Nat :=
